@@ -150,6 +150,36 @@ def IsBest (fs : List Flow) (h : Headers) : Option Flow → Prop
   | some f => f ∈ fs ∧ matchHdr f.mtch h = true ∧ ∀ g ∈ fs, matchHdr g.mtch h = true → rank g ≤ rank f
   | none => ∀ g ∈ fs, matchHdr g.mtch h = false
 
+/-! ## exact match under the prerequisite rule
+
+`exact` above reads "has no wildcards" literally (the 22 defined bits of the word are zero).  Under the prerequisite rule the wildcard
+bits of ignored fields carry no information — "fields that are ignored don't need to be wildcarded" — so two transmitted matches that
+differ only there describe the same flow and must rank alike.  `exactSig` is that reading: every field the match *could* compare is
+compared in full (no flag set on a field whose prerequisite is specified, complete addresses when IPv4/ARP is specified).  It is what
+the reference switch implements (ignored fields are marked exact-match so that such flows live in the exact-match table).  The two
+readings agree on every match that wildcards no ignored field and is IPv4 TCP/UDP/ICMP when literally exact. -/
+
+/-- the prerequisite of the field behind wildcard bit `bit` is specified by the match -/
+def prereqOk (r : OfMatch) (bit : Nat) : Bool :=
+  if bit = W_NW_TOS then ipSpecified r
+  else if bit = W_NW_PROTO then nwSpecified r
+  else if bit = W_TP_SRC ∨ bit = W_TP_DST then tpSpecified r
+  else true
+
+def flagBitsAll : List Nat :=
+  [W_IN_PORT, W_DL_VLAN, W_DL_SRC, W_DL_DST, W_DL_TYPE, W_NW_PROTO, W_TP_SRC, W_TP_DST, W_DL_VLAN_PCP, W_NW_TOS]
+
+def exactSig (r : OfMatch) : Bool :=
+  flagBitsAll.all (fun bit => !wild r bit || !prereqOk r bit) &&
+  (!nwSpecified r || (srcIgnored r == 0 && dstIgnored r == 0))
+
+def rankSig (f : Flow) : Nat := if exactSig f.mtch then 0x10000 else f.priority
+
+/-- `IsBest` with `rankSig` -/
+def IsBestSig (fs : List Flow) (h : Headers) : Option Flow → Prop
+  | some f => f ∈ fs ∧ matchHdr f.mtch h = true ∧ ∀ g ∈ fs, matchHdr g.mtch h = true → rankSig g ≤ rankSig f
+  | none => ∀ g ∈ fs, matchHdr g.mtch h = false
+
 /-! ## subsumption (used by the non-strict MODIFY / DELETE of §4.6) -/
 
 /-- is the flag field behind wildcard bit `bit` compared by `r`?  (not wildcarded and its prerequisite specified) -/
